@@ -62,6 +62,9 @@ SHAPES = [
     {'ctor': '_', 'value': True, 'kw': {'y': ''}},
     {'ctor': None, 'value': True, 'kw': {'source': '_x'}},
     {'ctor': None, 'value': True, 'kw': {'source': '_ext_'}},
+    # data items whose names coincide with parameter names used inside the library
+    {'ctor': None, 'value': True, 'kw': {'etype': 'x', 'blk': 1}},
+    {'ctor': 'panel', 'value': True, 'kw': {'etype': 'put', 'data': {'a': 1}, 'dest': 'd'}},
 ]
 
 
@@ -117,6 +120,27 @@ def run_phase_case(case, ctx):
             hist.log('recv', self.name, 'put', dict(edzed.fsm_event_data.get()))
             return True
 
+        # the actions of the transition see the data of the external event as well, also
+        # after the on_exit events were handled by another FSM in between
+        def exit_off(self):
+            hist.log('recv_action', self.name, 'exit', dict(edzed.fsm_event_data.get()))
+
+        def exit_on(self):
+            hist.log('recv_action', self.name, 'exit', dict(edzed.fsm_event_data.get()))
+
+        def enter_on(self):
+            hist.log('recv_action', self.name, 'enter', dict(edzed.fsm_event_data.get()))
+
+    class Other(edzed.FSM):
+        STATES = ['a', 'b']
+        EVENTS = [['nudge', 'a', 'b'], ['nudge', 'b', 'a']]
+
+        def enter_a(self):
+            hist.log('other_action', dict(edzed.fsm_event_data.get()))
+
+        def enter_b(self):
+            hist.log('other_action', dict(edzed.fsm_event_data.get()))
+
     objs = {}
 
     def do_send(tag):
@@ -133,6 +157,7 @@ def run_phase_case(case, ctx):
         except Exception as err:
             res['outcome'] = ('exc', type(err).__name__, str(err)[:80])
         res['recv'] = [e for e in hist.entries[n0:] if e[2] == 'recv']
+        res['recv_action'] = [e for e in hist.entries[n0:] if e[2] == 'recv_action']
         res['tag'] = tag
         res['dest_output'] = dest.output
 
@@ -144,7 +169,10 @@ def run_phase_case(case, ctx):
         elif destkind == 'counter':
             dest = edzed.Counter('dest')
         else:
-            dest = Fsm('dest', persistent=destkind == 'pfsm')
+            Other('other')
+            dest = Fsm('dest', persistent=destkind == 'pfsm',
+                       on_exit_off=edzed.Event('other', 'nudge'),
+                       on_exit_on=edzed.Event('other', 'nudge'))
         if destkind.startswith('p'):
             edzed.get_circuit().set_persistent_data({})
         objs['dest'] = dest
@@ -325,6 +353,15 @@ def judge_phase(case, res, ctx):
             raise core.Violation('external-mark-missing', f"{where}: source {data.get('source')!r}")
         if data != exp:
             raise core.Violation('data-changed', f"{where}: delivered {data}, expected {exp}")
+        for e in res.get('recv_action', ()):
+            ctx.count('fsm_actions_data_checked')
+            if e[5] != exp:
+                raise core.Violation(
+                    'data-changed',
+                    f"{where}: the {e[4]} action of the destination FSM read {e[5]} through "
+                    f"fsm_event_data, expected {exp}")
+        if destkind != 'probe' and len(res.get('recv_action', ())) != 2:
+            raise core.Violation('delivery-count', f"{where}: actions run: {res.get('recv_action')}")
         want = ('handled', 'put') if destkind == 'probe' else True
         if out[1] != want:
             raise core.Violation('return-value', f"{where}: send() returned {out[1]!r}, handler {want!r}")
